@@ -137,8 +137,21 @@ pub fn gen_case(t: &mut Tape) -> Case {
                 let nn = crate::model::print::ident(&n);
                 // the bare name is used after the join, or inside the join condition itself (where
                 // `this` and `that` are both in scope)
-                let k = t.choose(7);
+                // a qualified way to name one of the two same-named columns (for group keys)
+                let qual: Option<String> = if !alias.is_empty() {
+                    Some("zr".to_string())
+                } else {
+                    frame.cols.iter().find(|c| c.name.as_ref() == Some(&n)).and_then(|c| c.rel.clone()).map(|r| crate::model::print::ident(&r))
+                };
+                let mut k = t.choose(9);
+                if k >= 7 && qual.is_none() {
+                    k -= 7;
+                }
                 let use_ = match k {
+                    // the ambiguity must survive a group keyed on one of the two columns whose pipeline
+                    // keeps the rows (both columns are still in the frame afterwards)
+                    7 => format!(" | group {{{}.{nn}}} (take 1) | select {{{nn}}}", qual.clone().unwrap()),
+                    8 => format!(" | group {{{}.{nn}}} (sort {{{}.{nn}}} | take 1) | filter {nn} == {nn}", qual.clone().unwrap(), qual.clone().unwrap()),
                     0 => format!(" | derive {{zz = {nn}}}"),
                     1 => format!(" | filter {nn} == {nn}"),
                     2 => format!(" | sort {{{nn}}}"),
